@@ -128,3 +128,10 @@ def handle_io_protocol(O):
 def first_answer_is_this_runs(O):
     from . import C15
     C15.no_shared_state_core(O, rep())
+
+
+@obligation("C13/glue-stores-nothing", desc="next / handle_io store nothing themselves - neither into the iterator nor into the "
+            "driver's answer (no loop over the answer that rewrites values) - and call nothing but get_row / handle_io / "
+            "into_data_row resp. the driver, set_outputs and extract_output_values")
+def glue_stores_nothing(O):
+    dri.glue_keeps_state(O, rep())
